@@ -63,6 +63,8 @@ def _real_layer(kind, C, K, cin, dw, bias, alpha, beta, gamma, discrete):
         layer = PITLinear(nn.Linear(cin, C, bias=bias), fm, discrete_cost=discrete)
     with torch.no_grad():
         fm.alpha.copy_(torch.tensor(alpha, dtype=torch.float32))
+    from plinio.graph.features_calculation import ConstFeaturesCalculator
+    layer.input_features_calculator = ConstFeaturesCalculator(cin)      # registers its buffers on the layer
     return layer
 
 
@@ -153,7 +155,10 @@ def _model_case(args):
                 w = SuperNet(net, input_shape=shape, cost=cost_arg, full_cost=spec['full_cost'])
             elif method == 'odimo':
                 from plinio.methods.odimo_mps import ODiMO_MPS
-                w = ODiMO_MPS(net, input_shape=shape) if name is None else ODiMO_MPS(net, input_shape=shape, cost={'x': cs, 'p': pc.params_bit})
+                from plinio.methods.odimo_mps.odimo_mps import get_default_qinfo as odimo_qinfo
+                qi = odimo_qinfo((2, 8), (8,))      # DIANA: ternary (2-bit) analog or 8-bit digital weights, 8-bit activations
+                w = ODiMO_MPS(net, input_shape=shape, qinfo=qi) if name is None else \
+                    ODiMO_MPS(net, input_shape=shape, qinfo=qi, cost={'x': cs, 'p': pc.params_bit})
             else:
                 per_ch = method == 'mpsc'
                 w = MPS(net, input_shape=shape, cost=cost_arg, full_cost=spec['full_cost'],
